@@ -327,3 +327,6 @@ def decide_inconclusive(obs, results, cases):
     if obs.get('chains', 0) == 0 or obs.get('ensemble_members_checked', 0) == 0 or obs.get('process_chains', 0) == 0:
         return 'no chain / no ensemble member / no process chain was checked'
     return None
+
+
+RULE = RULE + '; a class whose pickling keeps __cause__; deep stacks through alternating functions (long traceback text)'
